@@ -2,7 +2,7 @@
    correspondence check compares character-for-character with hypnotoad's writer and token-for-token with its
    reader on every run. *)
 From Coq Require Import List Arith.
-From HT Require Import Model_Geqdsk Proof_Geqdsk.
+From HT Require Import Model_Geqdsk Proof_Geqdsk Model_GeqdskHeader Proof_GeqdskHeader.
 Import ListNotations.
 
 (* the reader's regular expression recovers every value the writer formats: ANY list of blocks of ANY lengths
@@ -43,7 +43,14 @@ Definition ex_g : gdata :=
 Example C17_example : tokenize (file_body ex_g) = expected_tokens ex_g /\ length (expected_tokens ex_g) = 40.
 Proof. split; vm_compute; reflexivity. Qed.
 
+(* the first line: whatever the label, date, shot and time fields contain (any characters, any lengths -- the "{:11s}" fields pad but never truncate), the reader's
+   `words[-2]`, `words[-1]` of the written header are nx and ny, for all sizes below 1000 (from 1000 on the "{:4d}" fields abut: Example header_abuts_from_1000) *)
+Theorem C17_header_roundtrip : forall label date shot time nx ny, nx < 1000 -> ny < 1000 ->
+  read_header (header label date shot time nx ny) = Some (nat_digits nx, nat_digits ny).
+Proof. exact header_roundtrip. Qed.
+
 Print Assumptions C17_tokens_of_written.
 Print Assumptions C17_chunking.
 Print Assumptions C17_file_roundtrip.
 Print Assumptions C17_abut.
+Print Assumptions C17_header_roundtrip.
